@@ -523,6 +523,20 @@ func (p *Prog) callees(g *Func) []*Func {
 			case *ast.Ident:
 				if fo, ok := info.Uses[x].(*types.Func); ok {
 					add(p.FuncByObj[fo])
+					// interface method: every module implementation may be the callee
+					if sig, ok := fo.Type().(*types.Signature); ok && sig.Recv() != nil {
+						if it, ok := sig.Recv().Type().Underlying().(*types.Interface); ok {
+							for _, h := range p.Funcs {
+								if h.Obj == nil || h.Recv == nil || h.Obj.Name() != fo.Name() {
+									continue
+								}
+								rt := h.Recv.Type()
+								if types.Implements(rt, it) || types.Implements(types.NewPointer(rt), it) {
+									add(h)
+								}
+							}
+						}
+					}
 				}
 			}
 			return true
